@@ -83,8 +83,23 @@ def _worker(args):
     mod = _module(pid)
     res = mod.run_task(task)
     res.setdefault('errors', [])
-  except Exception:  # harness failure: reported, never silently dropped
-    res = {'errors': [traceback.format_exc()], 'task': task}
+  except Exception as e:  # pylint: disable=broad-except
+    tb = traceback.extract_tb(e.__traceback__)
+    in_repo = [f for f in tb if f.filename.startswith('/repo/')]
+    if in_repo:
+      # the library itself raised while being driven inside its documented
+      # domain: that is a finding about the code, reported with the task as
+      # the replayable case (never silently dropped, never a harness error)
+      last = in_repo[-1]
+      res = {'violations': [dict(
+          key='%s:raises:%s' % (pid, type(e).__name__),
+          what='%s at %s:%d (%s): %s' % (type(e).__name__,
+                                         last.filename[len('/repo/'):],
+                                         last.lineno, last.name,
+                                         str(e)[:300]),
+          case=dict(kind='task', task=task))], 'evaluations': 1}
+    else:
+      res = {'errors': [traceback.format_exc()], 'task': task}
   res['task_wall_s'] = time.time() - t0
   res['task_name'] = task.get('name', '')
   return res
@@ -214,7 +229,7 @@ def run_check(pid, tier, seed):
   vac = getattr(mod, 'vacuous', None)
   if vac is not None:
     why = vac(tot, tier)
-    if why:
+    if why and rc == 0:
       rc = rc or 2
       print('HARNESS-ERROR property=%s vacuous run: %s' % (pid, why),
             file=sys.stderr)
@@ -277,7 +292,13 @@ def run_replay(pid, path):
   if hasattr(mod, 'replay_env'):
     os.environ.update(mod.replay_env(rec))
   os.chdir(os.path.join(ROOT, '.cache'))
-  ok, text = mod.replay(rec)
+  if rec.get('case', {}).get('kind') == 'task':
+    res = _worker((pid, rec['case']['task']))
+    vs = res.get('violations', [])
+    ok = not vs and not res.get('errors')
+    text = '\n'.join([v['what'] for v in vs] + res.get('errors', []))
+  else:
+    ok, text = mod.replay(rec)
   print(text)
   if ok:
     print('replay: property holds on this case')
